@@ -40,6 +40,11 @@ CLAIMED = {
     note=TB + "Partial for the scheduling clause: Pool.map's ordering guarantee is trusted, OS scheduling is not modelled, completion orders are forced for <= 3 ranks only. The manager-queue variant add_symbols_mp is checked for bijection, prefix stability and content only.",
     technique="Lean 4 proof (invariant by induction over additions; refinement of list+dict to a bijection) + model/implementation correspondence + hash-seed metamorphic run",
     design="7/C11"),
+  "C03": dict(
+    text="Lean 4 proof for both builders: the two Python comparators, transliterated branch for branch, are proved equal to one lexicographic key order on the domain of endpoint tokens (C03_lessThanNew_is_key_order, C03_cmpOld_is_key_order); for any properly nested family and ANY token list sorted by that order the push/pop loop with its unlabelled pop is proved correct by an invariant over prefixes (laminarity of the token order): C03_each_event_once, C03_parent_is_innermost (parent = innermost enclosing event, identical spans nest by id, touching spans are siblings, root iff none), C03_depth_counts_enclosers, C03_zero_placement, C03_zero_dur_transparent, C03_touching_not_enclosing, plus C03_run_* for the executable model. Tied to both CallStackGraph classes at unit level and to CallGraph(trace) through trace files, and to both comparator functions on all token pairs of each generated family, by a differential run and a Python oracle of the statement.",
+    note=TB + "Assumes sorted() with a consistent comparator returns the list sorted by it. The order is total and consistent only after the three 'fix:' commits recorded in known_findings.txt (the pinned comparators were cyclic).",
+    technique="Lean 4 proof (key-order equivalence by case analysis + omega; stack invariant by induction over the sorted token list) + model/implementation correspondence",
+    design="7/C03"),
   "C04": dict(
     text="Lean 4 theorem C04_temporal_partition: for every non-empty list of non-negative device intervals and every start-sorted permutation of it, the merge routine's numbers equal the unit-cell measures of the span/idle/compute/remainder and sum exactly to kernel_time. Tied to the code by a differential run of get_temporal_breakdown against the executable model, plus Spec.C04.check and an independent Python oracle evaluated on the implementation's own output.",
     note=TB + "Percent columns compared within 0.006 (float rounding not modelled). Kernel-type regexes modelled as prefix/infix tests and compared against Python re on every generated name.",
